@@ -1,6 +1,176 @@
-(* C14 — placeholder until the proofs land *)
-From WK Require Import Base.Base Model.RaftLog.
+(* C14 — The durable Raft log behaves as a correct Raft storage.
+   Only statements; each closed by [exact] of a lemma from Proof/RaftLog_*.v.
+
+   Vocabulary (Model/RaftLog.v, Proof/RaftLog_monitor.v):
+     mdl0 / mdl_step / mdl_after   the model of pkg/raftlog: one Pebble DB (rows per scope,
+                                    DB.stateCache, snapshot payload files) + one memoryStore per scope
+     ref_req / ref_run             the reference Raft storage (etcd MemoryStorage driven the way
+                                    multiraft drives its own copy), one per scope
+     hist_valid rs ops             every write group has pairwise different scopes and every request is
+                                    Raft-valid for the reference state it meets (req_valid) and does not
+                                    carry the signature of known finding K1 (k1_signature)
+     observe c sc                  InitialState + FirstIndex + LastIndex + Snapshot + all entry rows
+     pebble_entries / pebble_term  pebbleStore.Entries / pebbleStore.Term *)
+From WK Require Import Base.Base Gen.Consts_C14 Model.RaftLog
+     Proof.RaftLog_lists Proof.RaftLog_ref Proof.RaftLog_pebble Proof.RaftLog_ops
+     Proof.RaftLog_mem Proof.RaftLog_db Proof.RaftLog_monitor.
 Open Scope N_scope.
-Example c14_placeholder : C14_monitor (C14Case []) = 0.
-Proof. reflexivity. Qed.
-Print Assumptions c14_placeholder.
+
+(* Forward simulation, all histories: after any Raft-valid history (any number of scopes in
+   one database, write groups merged into one batch, refused commits, kills at the commit cut,
+   reopens, reads that persist a reconstructed meta row) every scope of the durable store
+   returns what its reference returns: initial state (hard state, conf state, applied and
+   config-applied index), first/last index, snapshot, entries, terms. *)
+Theorem c14_refines_memory : forall ops, hist_valid [] ops = true ->
+  forall sc,
+    let c := md_c (mdl_after mdl0 ops) in
+    let r := ref_of sc (ref_run [] ops) in
+    snd (observe c sc) = ref_observe r
+    /\ (forall lo hi mx, r_first r <= lo -> lo <= hi -> hi <= r_last r + 1 ->
+                         pebble_entries c sc lo hi mx = ref_entries r lo hi mx)
+    /\ (forall i, snd (pebble_term c sc i) = Some (match r_term r i with Some t => t | None => 0 end)).
+Proof. exact refines_memory. Qed.
+Print Assumptions c14_refines_memory.
+
+(* memory.go (the second implementation) agrees with the reference as well, on histories
+   whose snapshot-carrying saves have the shape of a raft Ready (entries above the snapshot) *)
+Theorem c14_memory_agrees : forall ops sc,
+  hist_valid [] ops = true -> forallb op_ready ops = true ->
+  let ms := mem_of sc (md_m (mdl_after mdl0 ops)) in
+  let r := ref_of sc (ref_run [] ops) in
+  mem_observe ms = ref_observe r
+  /\ (forall lo hi mx, 0 < hi -> r_first r <= lo -> lo <= hi -> hi <= r_last r + 1 ->
+                       mem_entries ms lo hi mx = ref_entries r lo hi mx)
+  /\ (forall i, mem_term ms i = match r_term r i with Some t => t | None => 0 end).
+Proof. exact memory_agrees. Qed.
+Print Assumptions c14_memory_agrees.
+
+(* Entries never returns anything below the compaction point (or above the last index, or
+   outside the window asked for), for ANY lo/hi/maxSize; Term reports 0 for an index that is
+   neither the snapshot index nor in the log. *)
+Theorem c14_no_below_compaction : forall ops sc, hist_valid [] ops = true ->
+  let c := md_c (mdl_after mdl0 ops) in
+  let r := ref_of sc (ref_run [] ops) in
+  (forall lo hi mx e, In e (pebble_entries c sc lo hi mx) ->
+                      r_first r <= e_idx e /\ e_idx e <= r_last r /\ lo <= e_idx e /\ (hi = 0 \/ e_idx e < hi))
+  /\ (forall i, i + 1 < r_first r \/ r_last r < i -> snd (pebble_term c sc i) = Some 0).
+Proof. exact no_below_compaction. Qed.
+Print Assumptions c14_no_below_compaction.
+
+(* Reopen is the identity on every observable, and the writer's cached tail
+   (DB.stateCache) that the reopen dropped is rebuilt identically from the rows. *)
+Theorem c14_reopen : forall ops sc, hist_valid [] ops = true ->
+  let c := md_c (mdl_after mdl0 ops) in
+  snd (observe (reopen c) sc) = snd (observe c sc)
+  /\ (forall lo hi mx, pebble_entries (reopen c) sc lo hi mx = pebble_entries c sc lo hi mx)
+  /\ (forall i, snd (pebble_term (reopen c) sc i) = snd (pebble_term c sc i))
+  /\ (forall w, aget sc (c_cache c) = Some w -> loadScopeWriteState (reopen c) [] sc = Ok w).
+Proof. exact reopen_identity. Qed.
+Print Assumptions c14_reopen.
+
+(* Crash inside flushWriteRequests.  Hypothesis (Pebble, trusted): a batch is applied
+   entirely or not at all.  Then the reopened store is, for EVERY scope at once, the
+   reference before the group or the reference after the group — per scope a prefix of its
+   saves; a snapshot install leaves the old snapshot + log or the new snapshot + log. *)
+Theorem c14_crash_prefix :
+  forall crash_kv : list (N * rows) -> list bop -> list (N * rows),
+  (forall kv b, crash_kv kv b = kv \/ crash_kv kv b = apply_batch kv b) ->
+  forall ops reqs, hist_valid [] ops = true ->
+  group_valid (ref_run [] ops) reqs = true ->
+  let c' := run_group_crash crash_kv (md_c (mdl_after mdl0 ops)) reqs in
+  (forall sc, snd (observe c' sc) = ref_observe (ref_of sc (ref_run [] ops)))
+  \/ (forall sc, snd (observe c' sc) = ref_observe (ref_of sc (ref_group (ref_run [] ops) reqs))).
+Proof.
+  intros crash_kv Hat ops reqs Hv Hg. cbn zeta.
+  destruct (crash_group crash_kv Hat _ _ reqs (reach_Inv ops Hv) Hg) as [HI|HI]; [left|right];
+    intro sc; exact (proj1 (Inv_refines _ _ HI sc)).
+Qed.
+Print Assumptions c14_crash_prefix.
+
+(* a refused commit (writeCommitTestHook) or a kill at the commit cut changes nothing:
+   this is the [mode <> 0] case of the simulation, stated on its own *)
+Theorem c14_refused_commit_no_effect : forall c rs mode reqs,
+  Inv c rs -> group_valid rs reqs = true -> mode <> 0 ->
+  forall sc, snd (observe (fst (run_group c mode reqs)) sc) = ref_observe (ref_of sc rs).
+Proof.
+  intros c rs mode reqs HI Hg Hm sc. destruct (group_valid_forall rs reqs Hg) as [Hd Hall].
+  destruct (run_group_refused c rs mode reqs HI Hd Hall Hm) as (c' & codes & Hr & HI' & _).
+  rewrite Hr. exact (proj1 (Inv_refines _ _ HI' sc)).
+Qed.
+Print Assumptions c14_refused_commit_no_effect.
+
+(* the monitor evaluated on implementation traces is 0 on every trace the model can produce
+   for a Raft-valid history, and the mismatch test accepts the model's own trace *)
+Theorem c14_model_satisfies_monitor : forall ops, hist_valid [] ops = true ->
+  C14_monitor (C14Case (combine ops (mdl_run mdl0 ops))) = 0.
+Proof. exact model_satisfies_monitor. Qed.
+Print Assumptions c14_model_satisfies_monitor.
+
+Theorem c14_model_no_mismatch : forall ops,
+  C14_mismatch (C14Case (combine ops (mdl_run mdl0 ops))) = false.
+Proof. exact model_no_mismatch. Qed.
+Print Assumptions c14_model_no_mismatch.
+
+(* Known finding C14-K1.  The full statement — the same conclusion for every history whose
+   requests are Raft-valid, WITHOUT excluding the K1 signature — is false of the faithful
+   model: a snapshot strictly inside the log whose term differs from the log's term at that
+   index leaves the old suffix above the new snapshot, also after reopen.  The witness is
+   corpus/C14/k1_snapshot_inside_log_keeps_stale_suffix.json, replayed on the real code. *)
+Theorem c14_k1_refuted :
+  hist_raft_valid [] k1_witness = true
+  /\ snd (observe (md_c (mdl_after mdl0 k1_witness)) 1) <> ref_observe (ref_of 1 (ref_run [] k1_witness))
+  /\ C14_monitor (C14Case (combine k1_witness (mdl_run mdl0 k1_witness))) = 2.
+Proof. exact k1_refuted. Qed.
+Print Assumptions c14_k1_refuted.
+
+(* ---- non-vacuity *)
+
+(* a Raft-valid history through most branches: append, conflicting overwrite, conf change,
+   local compaction (suffix kept), a merged group of two scopes, a refused commit, a snapshot
+   from the leader beyond the log followed by entries in the same save, an idempotent re-save,
+   a stale snapshot (refused), kill at the commit cut, reopen *)
+Definition c14_example_history : list op :=
+  [OWrite 0 [(1, WSave (Some (HS 1 1 2)) [E 1 1 0 (hx "aa") None; E 2 1 1 (hx "0800100018022200") (Some (0, 2)); E 3 1 0 [] None] None)];
+   OWrite 0 [(1, WSave (Some (HS 2 0 2)) [E 3 2 0 (hx "bb") None; E 4 2 0 (hx "cc") None] None)];
+   OWrite 0 [(1, WSave None [] (Some (SN 2 1 [1; 2] (hx "5a") 7))); (2, WMark 0)];
+   OQuery 1 (QEntries 3 5 0);
+   OWrite 1 [(1, WSave (Some (HS 2 0 4)) [] None); (0, WCfg 3)];
+   OWrite 0 [(0, WSave (Some (HS 3 0 9)) [E 10 3 0 (hx "dd") None] (Some (SN 9 3 [1; 3] (hx "0102") 11)))];
+   OWrite 0 [(0, WSave None [] (Some (SN 9 3 [1; 3] (hx "0102") 11)))];
+   OWrite 0 [(0, WSave None [] (Some (SN 4 1 [1] [] 0)))];
+   OWrite 2 [(0, WSave None [E 11 3 0 [] None] None)];
+   OReopen;
+   OObserve 0; OObserve 1; OObserve 2;
+   OQuery 0 (QTerm 9)].
+
+Example c14_example_valid :
+  hist_valid [] c14_example_history = true
+  /\ forallb op_ready c14_example_history = true
+  /\ mdl_run mdl0 c14_example_history <> []
+  /\ C14_monitor (C14Case (combine c14_example_history (mdl_run mdl0 c14_example_history))) = 0.
+Proof. repeat split; try (vm_compute; reflexivity). vm_compute. discriminate. Qed.
+
+(* the result classes of that history: the stale snapshot is ErrSnapOutOfDate, the refused
+   commit and the kill report the injected error to every request of the group *)
+Example c14_example_codes :
+  map (fun x => match x with RWrite cs => cs | _ => [] end) (mdl_run mdl0 c14_example_history)
+  = [[0]; [0]; [0; 0]; []; [3; 3]; [0]; [0]; [1]; [3]; []; []; []; []; []].
+Proof. vm_compute. reflexivity. Qed.
+
+(* the atomicity hypothesis of c14_crash_prefix is satisfiable (both ways) *)
+Example c14_crash_hypothesis_satisfiable :
+  (forall kv b, (fun kv _ => kv) kv b = kv \/ (fun kv (_ : list bop) => kv) kv b = apply_batch kv b)
+  /\ (forall kv b, apply_batch kv b = kv \/ apply_batch kv b = apply_batch kv b).
+Proof. split; intros; [left|right]; reflexivity. Qed.
+
+(* the K1 signature is narrow: computed from the input history alone (the save carries a
+   snapshot strictly inside the log whose term differs from the log's term at that index) *)
+Example c14_k1_signature_is_narrow :
+  k1_signature rstate0 (WSave None [] (Some (SN 5 1 [1] [] 0))) = false
+  /\ k1_signature (RS hs0 0 0 snap0 [E 1 1 0 [] None; E 2 1 0 [] None])
+                  (WSave None [] (Some (SN 1 1 [1] [] 0))) = false      (* matches the log: a compaction *)
+  /\ k1_signature (RS hs0 0 0 snap0 [E 1 1 0 [] None; E 2 1 0 [] None])
+                  (WSave None [] (Some (SN 2 9 [1] [] 0))) = false      (* at the end of the log: everything is replaced *)
+  /\ k1_signature (RS hs0 0 0 snap0 [E 1 1 0 [] None; E 2 1 0 [] None])
+                  (WSave None [] (Some (SN 1 2 [1] [] 0))) = true.
+Proof. repeat split; vm_compute; reflexivity. Qed.
